@@ -33,6 +33,7 @@ def txt (b : Bytes) : String := toAsciiString b
 inductive DpOp where
   | recv (ref body : Bytes)
   | remove (ref : Bytes)
+  | rm (ref : Bytes) (mode : String)   -- a removal photographed at its write boundaries
 
 inductive Step where
   | eff (e : Eff) (shown : Option String)   -- executed effect and its log line (none: no call is made)
@@ -119,8 +120,56 @@ def dpCrashAppend (st0 : Store) (ref body : Bytes) (keep : Nat) (np row : Bool) 
     else if np && !(rollover && keep == total) then none
     else some (st0.crashAppend ref body keep np row)
 
+def rowInBounds (st : Store) (ref : Bytes) : Bool :=
+  match st.index.get ref with
+  | some m => (match st.packs[m.file]? with
+    | some p => decide (m.offset + m.size ≤ p.length)
+    | none => false)
+  | none => false
+
+/-- `delete` got as far as rewriting the header: the row and the pack with the rewritten header -/
+def deleteReach (st : Store) (ref : Bytes) : Option (Meta × Bytes) :=
+  match st.index.get ref with
+  | none => none
+  | some m => match st.packs[m.file]? with
+    | none => none
+    | some p => (deleteHeaderAt p ref m).map (fun p1 => (m, p1))
+
+/-- the on-disk states at the write boundaries of `RemoveBlobs [ref]`, in the order of the code as
+modelled (dele.go: header rewrite, then body reclaim; diskpacked.go: then the batch commit): entry to
+the reclaim, [half of an interrupted zero fill], [exit of the hole punch], entry to `CommitBatch`,
+returned -/
+def photoStates (st0 : Store) (ref : Bytes) (mode : String) : List Store :=
+  let mode := if rowInBounds st0 ref then mode else "punch"
+  let done := st0.remove [ref]
+  let commit := st0.crashDelete ref true true false
+  match deleteReach st0 ref with
+  | some (m, p1) =>
+    if m.size = 0 then [commit, done] else
+    let entry := st0.crashDelete ref true false false
+    let half : Store := { st0 with packs := modifyNth st0.packs m.file (fun _ => zeroExtent p1 m.offset (m.size / 2)) }
+    if mode == "fill" then [entry, commit, done]
+    else if mode == "half" then [entry, half, commit, done]
+    else [entry, commit, commit, done]
+  | none => [commit, done]
+
 def dpStep (s : St) (ws : List String) : St × String :=
   match ws with
+  | ["dp.rm", mode, r] =>
+    (match refArg r with
+     | some ref =>
+       if mode == "punch" ∨ mode == "fill" ∨ mode == "half" then
+         ({ s with dp := s.dp.remove [ref], dpPrev := some (s.dp, DpOp.rm ref mode) },
+           s!"done {(photoStates s.dp ref mode).length}")
+       else (s, "bad-op")
+     | none => (s, "bad-op"))
+  | ["dp.photo", i] =>
+    (match s.dpPrev, natArg i with
+     | some (st0, .rm ref mode), some i =>
+       (match (photoStates st0 ref mode)[i]? with
+        | some st' => ({ s with dp := st', dpPrev := none }, "ok")
+        | none => (s, "bad-op"))
+     | _, _ => (s, "bad-op"))
   | ["dp.init", m] =>
     (match natArg m with
      | some m => ({ s with dp := Store.init m, dpPrev := none }, "ok")
@@ -150,6 +199,8 @@ def dpStep (s : St) (ws : List String) : St × String :=
   | ["dp.crash", "d", hdr, body, row] =>
     (match s.dpPrev, boolArg hdr, boolArg body, boolArg row with
      | some (st0, .remove ref), some hdr, some body, some row =>
+       ({ s with dp := st0.crashDelete ref hdr body row, dpPrev := none }, "ok")
+     | some (st0, .rm ref _), some hdr, some body, some row =>
        ({ s with dp := st0.crashDelete ref hdr body row, dpPrev := none }, "ok")
      | _, _, _, _ => (s, "bad-op"))
   | ["dp.dump"] => (s, dpDump s.dp)
